@@ -343,7 +343,181 @@ class C05(Prop):
         return not refs[0].outcome.ok
 
 
-PROPS = {c.id: c for c in (C01, C02, C03, C04, C05)}
+def depths(spec):
+    """longest path from the input node in the declared dependency graph"""
+    keep = reachable(spec)
+    preds = {}
+    for a, b in declared_edges(spec):
+        if a in keep and b in keep:
+            preds.setdefault(b, set()).add(a)
+    memo = {}
+
+    def d(n):
+        if n not in memo:
+            memo[n] = 0 if not preds.get(n) else 1 + max(d(p) for p in preds[n])
+        return memo[n]
+
+    return {n: d(n) for n in keep}
+
+
+def holdable(n):
+    return (n.get('mode') == 'coro' and n.get('gates', 0) >= 1) or n.get('mode') in ('thread', 'process')
+
+
+class C06(Prop):
+    id = 'C06'
+    classes = ['plain']
+    faults = False
+    rule = ('plain-dependency DAGs (random shapes, all execution modes); for every depth d the barrier scheduler '
+            'releases everything of depth < d and withholds every holdable node (coroutine with a suspension point, '
+            'thread, process) of depth d until the loop is quiescent; every node of depth d must have been started; '
+            'non-trivial = a depth with >= 2 withheld nodes; distinct = (program, depth)')
+
+    def gen(self, rng):
+        spec = gen.gen_plain(rng, faults=False, n_max=12,
+                             profile=rng.choice([gen.MODE_PROFILES[5], gen.MODE_PROFILES[0], gen.MODE_PROFILES[3]]))
+        for n in spec['nodes']:
+            n.pop('value', None)
+        case = {'spec': spec, 'runs': [{'input': gen.gen_input(rng)}], 'mode': 'solo',
+                'uuid_seed': rng.randrange(1 << 30)}
+        dp = depths(spec)
+        by = {}
+        for n in spec['nodes']:
+            by.setdefault(dp[n['name']], []).append(n)
+        scheds = []
+        for d in sorted(by):
+            if d == 0:
+                continue
+            hold = [n['name'] for n in by[d] if holdable(n)]
+            scheds.append({'barrier': hold, 'depth': d, 'level': [n['name'] for n in by[d]],
+                           'set_seed': rng.randrange(1 << 16)})
+        if not scheds:
+            scheds = [{'barrier': [], 'depth': 0, 'level': [spec['input']]}]
+        case['scheds'] = scheds
+        return case
+
+    def judge(self, case, rec, refs, sd):
+        started = {ev[4] for ev in rec.trace if ev[2] == 'body_start'}
+        missing = [n for n in sd['level'] if n not in started]
+        if missing:
+            return [Violation({'C06'}, 'sibling_not_started',
+                              f'depth {sd["depth"]}: with {sd["barrier"]} held open and every shallower node complete, '
+                              f'{missing} never started (status {rec.status})')]
+        return []
+
+    def nontrivial(self, case, rec, refs):
+        return rec.max_pending >= 2
+
+
+class C09(Prop):
+    id = 'C09'
+    classes = ['switch', 'switch_unk', 'switch_shared']
+    rule = ('programs with named/unnamed, nested, shared switches; labels derived from the input incl. labels '
+            'without a case; oracle: executed bodies subset of the reference demanded set, consumer kwargs = '
+            'selected case value, unknown label => error result; non-trivial = program has a switch with >= 2 '
+            'cases or a case shared with another consumer, and >= 2 completions pending at once')
+
+    def nontrivial(self, case, rec, refs):
+        return rec.max_pending >= 2
+
+
+class C10(Prop):
+    id = 'C10'
+    classes = ['oneof', 'oneof_nested']
+    rule = ('programs with sibling / nested one-ofs, failures at any depth of candidate sub-pipelines, None/falsy '
+            'candidates; oracle: invocation multiset vs reference (laziness, containment, winner value), candidate '
+            'start order, OneOfDoesNotHaveResultError on exhaustion; non-trivial = some candidate failed before '
+            'the winner (or all failed) in the reference')
+
+    def judge(self, case, rec, refs, sd):
+        vs = super().judge(case, rec, refs, sd)
+        for i, ref in enumerate(refs):
+            vs += oracles.o_oneof_order(case, rec, ref, oracles.RunView(rec, i))
+        return vs
+
+    def nontrivial(self, case, rec, refs):
+        return any(not ok for _, _, tried, _ in refs[0].oneof_log for _, ok in tried)
+
+
+class C11(Prop):
+    id = 'C11'
+    classes = ['rec']
+    rule = ('one recurrent subgraph over a plain DAG, 0..max+1 requested iterations, default on/off, retries and '
+            'failures inside the path; oracle: per-iteration invocation multiset (exact path set re-executed, start '
+            'node gets additional_data=data, <= max re-iterations), consumers of the destination only see the final '
+            'value / default, RecurrentSubgraphDoesNotHaveResultError otherwise; non-trivial = at least one '
+            're-iteration happened')
+
+    def nontrivial(self, case, rec, refs):
+        return any(v > 0 for v in refs[0].iterations.values())
+
+
+class C12(Prop):
+    id = 'C12'
+    rule = ('retry configurations attempts x delay x exceptions x use_default with random per-attempt outcome '
+            'plans on nodes anywhere in the pipeline; oracle: attempt count and identical kwargs (invocation '
+            'multiset), virtual-time gap >= delay between attempts, no retry for non-matching / BaseException, '
+            'get_default called with the body kwargs; non-trivial = a retry or default fired')
+
+    def gen_spec(self, rng):
+        return gen.gen_program(rng, self.get_classes(), faults=True, n_fault_nodes=rng.choice([1, 2, 2, 3, 4]),
+                               n_max=self.n_max)
+
+    def nontrivial(self, case, rec, refs):
+        h = rec.fault_hits or {}
+        return bool(h.get('default_used')) or any(len(e['idxs']) > 1 for e in refs[0].executions)
+
+
+class C14(Prop):
+    id = 'C14'
+    rule = ('recording event manager (optionally a second, slow one whose callbacks suspend) on programs with '
+            'failures, retries, one-of containment, re-iterations; oracle: well-formedness automaton over the event '
+            'word merged with the body trace (DESIGN section 6, C14); non-trivial = a retry, failure or re-iteration '
+            'occurred')
+
+    def decorate(self, case, rng):
+        ems = [{}]
+        if rng.random() < 0.4:
+            ems.append({'slow': True})
+        if rng.random() < 0.2:
+            ems.insert(0, {'slow': True})
+        case['em'] = ems
+
+    def judge(self, case, rec, refs, sd):
+        vs = oracles.o_termination(case, rec)
+        for i, ref in enumerate(refs):
+            view = oracles.RunView(rec, i)
+            for k in range(len(case.get('em') or ())):
+                vs += oracles.o_events(case, rec, ref, view, em_idx=k)
+        return vs
+
+    def nontrivial(self, case, rec, refs):
+        h = rec.fault_hits or {}
+        return any(k.startswith('node_raise') or k == 'next_iteration' for k in h)
+
+
+class C19(Prop):
+    id = 'C19'
+    classes = [c for c in CLASSES_ALL if c != 'rec']   # known finding K01
+    excluded_note = 'class rec (programs with a RecurrentSubGraph mark): known finding K01'
+    rule = ('recording (and, in half of the cases, write-once enforcing) artifact store on programs with shared '
+            'nodes; oracle: on successful reference outcomes each executed node is saved exactly once with its final '
+            'value, never a Recurrent marker or failure object, and the run outcome still equals the reference; '
+            'non-trivial = >= 2 completions pending at once')
+
+    def decorate(self, case, rng):
+        case['store'] = {'write_once': rng.random() < 0.5, 'slow': rng.random() < 0.3}
+
+    def judge(self, case, rec, refs, sd):
+        vs = oracles.o_termination(case, rec)
+        if not case.get('store'):
+            return vs
+        for i, ref in enumerate(refs):
+            vs += oracles.o_store(case, rec, ref, oracles.RunView(rec, i))
+        return vs
+
+
+PROPS = {c.id: c for c in (C01, C02, C03, C04, C05, C06, C09, C10, C11, C12, C14, C19)}
 
 
 def get_prop(pid, tier='quick'):
